@@ -56,6 +56,13 @@ def gen_case(rng, idx):
     aux_mode = str(rng.choice(["scalar", "per-sample", "zero"])) if n_other else "zero"
     aux = float(np.round(rng.uniform(0.02, 0.2) * etotal, 1)) if aux_mode != "zero" else 0.0
     aux_series = [float(np.round(rng.uniform(0.02, 0.2) * etotal, 1)) for _ in range(n)] if aux_mode == "per-sample" else None
+    if aux_series is not None and rng.random() < 0.5:     # hotel load off for some samples / the closing sample left at 0
+        for i in range(n):
+            if rng.random() < (0.6 if i == n - 1 else 0.2):
+                aux_series[i] = 0.0
+        if not any(aux_series):
+            aux_series[0] = float(np.round(0.05 * etotal, 1))
+    P = [0.0 if rng.random() < 0.1 else p for p in P]       # quay / drifting samples
     return {"idx": idx, "kind": kind, "spec": spec, "t": t, "P": P, "aux_mode": aux_mode, "aux": aux, "aux_series": aux_series,
             "op_profile": str(rng.choice(["none", "same", "other"]))}
 
